@@ -195,7 +195,7 @@ func (c *caComp) Run(args []string) string {
 		scriptedNow = atoi(args[3])
 		c.c.ConnectError(decStr(args[1]), fmt.Errorf("%s", decStr(args[2])))
 		return bracket(c.events)
-	case "upd":
+	case "upd", "updu": // updu: the model applies the notification's units one at a time (C03); here it is one call
 		scriptedNow = atoi(args[1])
 		n, ok := c.notis[args[2]]
 		if !ok {
